@@ -76,8 +76,18 @@ func genStorageCase(r *rand.Rand, T int) *stCase {
 		c.levels[k], c.volumes[k], c.areas[k], c.minRel[k], c.maxRel[k] = lv, vol, ar, mn, mx
 	}
 	full := c.volumes[n-1]
-	c.style = []string{"fill", "drawdown", "mixed", "quiet"}[r.Intn(4)]
+	c.style = []string{"fill", "drawdown", "mixed", "quiet", "weir"}[r.Intn(5)]
+	if c.style == "weir" {
+		// a small pool behind a big spillway, held around its full-supply volume
+		for k := range c.volumes {
+			c.volumes[k] *= 0.05
+		}
+		full = c.volumes[n-1]
+	}
 	c.v0 = r.Float64() * full
+	if c.style == "weir" {
+		c.v0 = (0.8 + 0.2*r.Float64()) * full
+	}
 	c.rain, c.pet, c.inflow, c.demand = make([]float64, T), make([]float64, T), make([]float64, T), make([]float64, T)
 	perDay := c.dt / 86400
 	for t := 0; t < T; t++ {
@@ -94,6 +104,12 @@ func genStorageCase(r *rand.Rand, T int) *stCase {
 		case "quiet":
 			c.inflow[t] = r.Float64() * 2
 			c.demand[t] = r.Float64() * 2
+		case "weir":
+			c.inflow[t] = c.minRel[n-1] * (0.9 + 0.5*r.Float64())
+			c.demand[t] = r.Float64() * c.minRel[n-1]
+			if r.Intn(3) == 0 {
+				c.demand[t] = 0
+			}
 		default:
 			if (t/10)%2 == 0 {
 				c.inflow[t] = r.Float64() * 6 * full / (float64(T) * c.dt) * 3
@@ -258,7 +274,7 @@ func storagelawsEngine(args []string) error {
 					add(h.v[0], h.v[1], h.v[0]-full)
 				case "trial":
 					d, v1, r1, v2, r2 := h.v[0], h.v[1], h.v[2], h.v[3], h.v[4]
-					add(d, r1, r2, interp(v1, c.volumes, c.minRel), interp(v1, c.volumes, c.maxRel), interp(v2, c.volumes, c.minRel), interp(v2, c.volumes, c.maxRel))
+					add(d, c.demand[t], r1, r2, interp(v1, c.volumes, c.minRel), interp(v1, c.volumes, c.maxRel), interp(v2, c.volumes, c.minRel), interp(v2, c.volumes, c.maxRel))
 				}
 			}
 			o.conResid = math.Abs(q*c.dt - released)
@@ -304,10 +320,10 @@ func storagelawsEngine(args []string) error {
 				switch h.kind {
 				case "trial":
 					d, v1, r1, v2, r2 := h.v[0], h.v[1], h.v[2], h.v[3], h.v[4]
-					enc.Encode(map[string]interface{}{"ev": "trial", "t": t, "dem": rank(d),
+					enc.Encode(map[string]interface{}{"ev": "trial", "t": t, "dem": rank(d), "demin": rank(c.demand[t]),
 						"r1": rank(r1), "lo1": rank(interp(v1, c.volumes, c.minRel)), "hi1": rank(interp(v1, c.volumes, c.maxRel)),
 						"r2": rank(r2), "lo2": rank(interp(v2, c.volumes, c.minRel)), "hi2": rank(interp(v2, c.volumes, c.maxRel)),
-						"raw": map[string]interface{}{"demand": d, "v1": v1, "release1": r1, "min1": interp(v1, c.volumes, c.minRel), "max1": interp(v1, c.volumes, c.maxRel),
+						"raw": map[string]interface{}{"demand": d, "demand_input": c.demand[t], "v1": v1, "release1": r1, "min1": interp(v1, c.volumes, c.minRel), "max1": interp(v1, c.volumes, c.maxRel),
 							"v2": v2, "release2": r2, "min2": interp(v2, c.volumes, c.minRel), "max2": interp(v2, c.volumes, c.maxRel)}})
 				case "spill":
 					enc.Encode(map[string]interface{}{"ev": "spill", "t": t, "v": rank(h.v[0]), "excess": rank(h.v[1]), "room": rank(h.v[0] - full),
